@@ -47,6 +47,8 @@ func checkC05(r *Run) {
 	r.Rule("R3", "every fmt.Errorf that is given an error operand wraps it with %w", 1)
 	r.Rule("R4", "error implies empty result: a (string|template.HTML, error) function on the render path never returns a non-empty first result together with a possibly non-nil error", 5)
 	r.Rule("R5", "the reflect call site inspects the trailing error result and returns before the first result is used", 1)
+	r.Rule("R6", "a failed operation leaves nothing behind: what a call returns together with an error is stored into memory that outlives the call (package variables, maps and fields reached from them or from a parameter) only where that error is known to be nil", 1)
+	noFailedResultKeptRule(r, "R6")
 	w := r.W
 	w.SSA()
 	licensed := map[*types.Func]bool{}
